@@ -336,7 +336,7 @@ func c16Run(t *testing.T, r *verifsim.Run) {
 			r.Logf("send channel=%d ids=%d..%d", ci, first, nextID)
 		case "tick":
 			ci := tp.Choose("tick-channel", nCh)
-			n := 1 // single ticks only: overlapping Tick calls of one backoff strategy are C17's subject (its counter race would make the published set scheduler-dependent)
+			n := 1 + tp.Choose("tick-burst", 3)
 			for i := 0; i < n; i++ {
 				chans[ci].ticks <- uint64(step)
 			}
